@@ -46,8 +46,8 @@ Init == /\ tid \in 1..Len(Traces) /\ l = 1
 \* ---- shadow -------------------------------------------------------------------------------
 Apply(S, e, fix) ==
     LET z == e.z IN
-    CASE e.k \in {"start", "fu"} -> IF e.s = "get" THEN StartGet(S, z, e.b = 1, e.a)
-                                    ELSE StartSet(S, z, e.c, e.a)
+    CASE e.k \in {"start", "fu"} -> IF e.s = "get" THEN StartGet(S, z, e.b = 1, e.a, fix)
+                                    ELSE StartSet(S, z, e.c, e.a, fix)
       [] e.k = "xr" ->
             IF ~(Z(S, z).pc \in ExchPcs) THEN S
             ELSE IF e.s # "ok" THEN Fail(S, z, "err", fix)
@@ -55,8 +55,8 @@ Apply(S, e, fix) ==
             \* waiting for, the shadow stays where it is (reported as drift by Fits, never a crash of the judge)
             ELSE IF Z(S, z).pc = "w_frag" THEN (IF e.q = "frag" THEN OnFrag(S, z, e.a, e.b, e.c, TRUE, fix) ELSE S)
             ELSE IF Z(S, z).pc = "w_put" THEN (IF e.q = "put" THEN OnPutAck(S, z) ELSE S)
-            ELSE (IF e.q = "ver" THEN OnVer(S, z, e.a) ELSE S)
-      [] e.k = "locked" -> IF Z(S, z).pc = "w_lock" THEN TryLock(S, z) ELSE S
+            ELSE (IF e.q = "ver" THEN OnVer(S, z, e.a, fix) ELSE S)
+      [] e.k = "locked" -> IF Z(S, z).pc = "w_lock" THEN TryLock(S, z, fix) ELSE S
       [] e.k = "end" -> IF Active(S, z) THEN Fail(S, z, e.s, fix) ELSE S
       [] e.k = "hm" -> IF e.s = "ack" THEN HeardAck(S, z, e.b, e.c, TRUE, fix)
                        ELSE Heard(S, z, e.a, e.b, e.c, TRUE)
